@@ -700,7 +700,8 @@ func TestC23(t *testing.T) {
 		pool := c23Pool(rng)
 		c := c23Gen(rng, pool)
 		res := c23RunAgg(t, c, pool, int64(ci))
-		r.Eval(1)
+		r.Eval(res.ops) // one evaluation = one key operation whose aggregation was judged
+		r.Count("agg_cases", 1)
 		r.Count("agg_operations_judged", res.ops)
 		r.Count("agg_reply_packets_sent_by_puppets", res.sent)
 		for k, v := range res.classes {
